@@ -1,5 +1,5 @@
 PROP = {
-    "coq": ["C18", "C18b"],
+    "coq": ["C18", "C18b", "C18c"],
     "exhaustive": False,
     "rule": "Scenario alias: for both framings (MBAP, RTU over a scripted connection), all four encodings and the eight write calls taking "
             "a slice (WriteBytes, WriteRawBytes, WriteCoils, WriteRegisters, WriteUint32s, WriteUint64s, WriteFloat32s, WriteFloat64s): "
@@ -11,7 +11,16 @@ PROP = {
             "corrupted or foreign-frame-first replies; writes whose argument IS an earlier result; other calls); every returned slice is "
             "kept and re-compared, spare capacity included, with its first snapshot after every later call; the model runs the same "
             "history on its heap and re-reads the earlier result slices."
-            " The alias scenario also re-reads the caller's storage while the request is on the wire (inside the peer's Write hook): it must be unchanged during the call, not only after it.",
+            " The alias scenario also re-reads the caller's storage while the request is on the wire (inside the peer's Write hook): it must be unchanged during the call, not only after it."
+            " Scenario stablelife (Model/HeapLife.v, C18c): the later calls on the same client that are NOT requests - Close() and Open(). A client "
+            "really opened (NewClient + Open) on tcp, tcp+tls (run-time generated key pair), rtuovertcp, udp and rtuoverudp against a loopback "
+            "device that answers every request with the reply of the call in progress (valid, a modbus exception, or - tcp schemes - closing the "
+            "connection instead); the grid every transport x every slice-returning read x {Close; Close,Open; Open; Close,Close,Open; "
+            "Close,Open,Close} directly after it, then a write whose argument IS the kept result and another read, and seeded histories of 3..10 "
+            "steps with Close/Open anywhere; every returned slice is kept and re-compared, spare capacity included, after EVERY later step "
+            "(request call, call on the closed handle, Close, Open); observables: per call the projected result and the request frame the "
+            "device received, the verdict stable/changed; the model runs the same history with HlClose/HlOpen events on its heap. "
+            "(rtu on a serial device is not run: no pty timing in this scenario.)",
     "assumptions": [
         "Go language semantics of slices as modelled in Model/Heap.v: append stores in place iff len + n <= cap and otherwise allocates "
         "(the growth policy is a universally quantified argument of every theorem), make allocates a fresh array, a slice expression "
